@@ -2331,6 +2331,12 @@ func (e *Env) RInnerLineStarts() {
 					return true
 				}
 				n++
+				// the loop itself is reachable (not behind a return that is always taken)
+				if lpc, okl := pathCond(c, fd.Body.List, rs); okl {
+					if dead, dec := unsatWith(orTrue(lpc), "true"); dec && dead {
+						e.Run.Violation("R-CURSOR", load.FuncName(fd)+": the walk over the text that records its inner line starts is reachable", e.Prog.Pos(rs.Pos()), "the loop sits under «"+lpc+"», which cannot hold: the lines inside multi-line literals / comments are never recorded")
+					}
+				}
 				pc, okp := pathCond(c, rs.Body.List, as)
 				eq, dec := equivalentGuards(orTrue(pc), val.Name+` == '\n'`)
 				e.Run.Check("R-CURSOR", load.FuncName(fd)+": inside a text a line start is recorded for exactly its newline characters", e.Prog.Pos(as.Pos()), okp && dec && eq,
